@@ -44,6 +44,7 @@ type normInfo struct {
 	Left     []string         // calls of non-vocabulary functions that were not expanded (with the reason)
 	Removed  []string
 	NewFuncs []string
+	Renamed  []string // declarations given back their reference names
 	Rounds   int
 }
 
@@ -1915,13 +1916,18 @@ func rewriteFile(path string, edits []textEdit, old []int) ([]int, error) {
 }
 
 // normalise builds the normalised copy of repo; nil info when the tree has no function outside the vocabulary.
-func normalise(repo string, vocab map[string]bool) (*normInfo, error) {
+func normalise(repo string, vocab map[string]bool, decls *refDecls) (*normInfo, error) {
 	pkgs, err := loadSyntax(repo)
 	if err != nil {
 		return nil, err
 	}
 	nf := newFunctions(pkgs, vocab)
-	if len(nf) == 0 && len(localClosures(pkgs)) == 0 && !hasClosureTables(pkgs) {
+	nRen := 0
+	if decls != nil {
+		r, _ := computeRenames(pkgs, decls)
+		nRen = len(r)
+	}
+	if len(nf) == 0 && len(localClosures(pkgs)) == 0 && !hasClosureTables(pkgs) && nRen == 0 {
 		return nil, nil
 	}
 	tmp, err := os.MkdirTemp("", "hlnorm-")
@@ -1937,6 +1943,41 @@ func normalise(repo string, vocab map[string]bool) (*normInfo, error) {
 		info.NewFuncs = append(info.NewFuncs, c.name)
 	}
 	sort.Strings(info.NewFuncs)
+	// round 0: names of the reference tree that were changed are put back (renames.go)
+	for pass := 0; nRen > 0 && pass < 3; pass++ {
+		pkgs, err = loadSyntax(tmp)
+		if err != nil {
+			return info, fmt.Errorf("copy does not type-check after putting names back: %v", err)
+		}
+		ren, notes := computeRenames(pkgs, decls)
+		if len(ren) == 0 {
+			break
+		}
+		N := &normaliser{pkgs: pkgs, info: info, edits: map[string][]textEdit{}}
+		if len(pkgs) > 0 {
+			N.fset = pkgs[0].Fset
+		}
+		renameEdits(N, pkgs, ren)
+		for fn, eds := range N.edits {
+			rel, _ := filepath.Rel(tmp, fn)
+			m, err := rewriteFile(fn, eds, info.lineMap[rel])
+			if err != nil {
+				return info, err
+			}
+			info.lineMap[rel] = m
+		}
+		info.Renamed = append(info.Renamed, notes...)
+	}
+	if nRen > 0 {
+		// what counts as new is decided after the names are back
+		if p2, err2 := loadSyntax(tmp); err2 == nil {
+			info.NewFuncs = info.NewFuncs[:0]
+			for _, c := range newFunctions(p2, vocab) {
+				info.NewFuncs = append(info.NewFuncs, c.name)
+			}
+			sort.Strings(info.NewFuncs)
+		}
+	}
 	for round := 1; round <= 8; round++ {
 		pkgs, err = loadSyntax(tmp)
 		if err != nil {
